@@ -128,7 +128,7 @@ def gen_scene(rng, sid, force=None):
     if len(lats) < 2:
         lats = [87.5, 90.0]
     lstep = rng.choice([0.25, 0.5, 1.0, 2.5])
-    lon0 = rng.choice([-180.0, -85.0, -1.0, -0.25, 0.0, 10.0, 100.5, 170.0])
+    lon0 = rng.choice([-180.0, -85.0, -1.0, -0.25, 0.0, 10.0, 100.5, 170.0, 176.0, 179.5, 200.0, 350.0])   # 0..360 files (ERA5 native): nodes at and beyond 180
     lons = [lon0 + i * lstep for i in range(nlo)]
     lon_desc = rng.random() < 0.25
     if rng.random() < 0.5:
